@@ -53,6 +53,12 @@ def c_origin_other(s, r):
     _keep_expected(s); s.origin = r.choice(["https://evil.example", "https://example.com.evil.test"]); authcat._l3_decoys(s, r)
 def c_origin_alias(s, r): authcat.f_origin_alias(s, r)
 def c_origin_pattern(s, r): authcat.f_origin_pattern(s, r)
+def c_rp_hash_of_other_string(s, r):
+    _keep_expected(s)
+    o = s.origin
+    cands = [o, o + "/", o.split("://")[-1], "https://" + s.rp_id, s.rp_id + ":443", authsim.b64u(s.challenge), s.cd_type, authsim.b64u(s.cred_id), " "]
+    s.sign_rp_id = r.choice([c for c in cands if c != s.rp_id])
+def c_cd_wrapped_as_string(s, r): s.k["cd_wrap"] = (r.choice([1, 2]), r.choice([b"", b" ", b"\n"]))
 def c_origin_substring(s, r):
     s.exp_origin = "https://example.com:8443"
     s.origin = r.choice(["https://example.com", "example.com:8443", "https://example.com:844", ""])
@@ -79,7 +85,7 @@ def c_bs_without_be(s, r): s.flags = (s.flags | 0x10) & ~0x08
 CEREMONY = {
     "credential-alg-alias-not-in-allowed-list": c_alg_alias, "id-not-b64-rawid:padded-1": c_id_fault("padded-1"), "id-not-b64-rawid:last-char-spare-bits": c_id_fault("last-char-spare-bits"), "id-not-b64-rawid:newline-appended": c_id_fault("newline-appended"),
     "id-not-b64-rawid:standard-alphabet": c_id_fault("standard-alphabet"), "id-not-b64-rawid:char-appended": c_id_fault("char-appended"), "id-not-b64-rawid:empty": c_id_fault("empty"),
-    "origin-alias-spelling": c_origin_alias, "origin-expected-read-as-pattern": c_origin_pattern, "challenge-base64url-alias": c_challenge_b64_alias, "allowed-algorithms-empty": c_algs_empty,
+    "origin-alias-spelling": c_origin_alias, "rp-id-hash-of-another-ceremony-string": c_rp_hash_of_other_string, "client-data-is-a-json-string-wrapping-the-object": c_cd_wrapped_as_string, "origin-expected-read-as-pattern": c_origin_pattern, "challenge-base64url-alias": c_challenge_b64_alias, "allowed-algorithms-empty": c_algs_empty,
     "cd-type": c_type, "challenge-other": c_challenge_other, "challenge-trunc": c_challenge_trunc, "origin-other": c_origin_other,
     "origin-substring": c_origin_substring, "origin-list-absent": c_origin_list_absent, "token-binding-status": c_token_binding,
     "rp-id-other": c_rp_other, "up-clear-required": c_up_clear, "uv-clear-required": c_uv_clear, "no-attested-data": c_no_attested,
@@ -310,7 +316,7 @@ FORMAT_FAULTS = {
 # entries that make an inner structure MALFORMED (not a well-formed response rejected for a semantic reason): C19 does not demand a
 # library exception for them (observations O3/O4 in DESIGN section 4): an attested Name too short to carry its algorithm id makes the
 # TPM structure parser raise KeyError; a credential key that is no point of its declared curve makes `cryptography` raise ValueError
-MALFORMED_STRUCTURE = {"attested-name-empty", "credential-key-other-curve-same-xy", "client-data-malformed-affix-not-signed"}      # (the last: client data that is no UTF-8 / no JSON text - observation O2)
+MALFORMED_STRUCTURE = {"attested-name-empty", "credential-key-other-curve-same-xy", "client-data-malformed-affix-not-signed", "client-data-is-a-json-string-wrapping-the-object"}      # (the last: client data that is no UTF-8 / no JSON text - observation O2)
 # faults that only make sense for some credential key families
 NEEDS_FAMILY = {"ecc-point-mismatch": "ec", "ecc-curve-mismatch": "ec", "ecc-curve-unmappable": "ec"}
 # entries known to be accepted by the unchanged implementation (genuine defects, see DESIGN section 4)
